@@ -219,6 +219,8 @@ def explain(t):
 def check(run):
     common.run_translator("psl_table")
     common.run_translator("psl_rules")
+    common.run_translator("status")
+    common.run_translator("client_skeleton")
     bad = common.hygiene_gate()
     if bad:
         raise common.Tie("hygiene gate: " + "; ".join(bad))
